@@ -100,7 +100,7 @@ PROPS = {
         "or Status code 0; lower-case keys in in-body blocks), or (iii) a random status/header/body/trailer tuple; delivery segmented and scheduled "
         "by the tape; checked: termination on the fake clock, no panic, every error is a *connect.Error with non-zero code, HTTP-status mapping for "
         "401/403/404/429/502/503/504, case-insensitive metadata lookup; distinct = distinct scheduler-log hash among runs with >= 2 candidates",
-        16000, 2000000),
+        100000, 2000000),
     "C07": e2e(
         "each run = one crafted HTTP request served by Handler.ServeHTTP (4 handler kinds x handler configurations: compression sets, read limit) "
         "from a byzantine client: a conformant request from the reference encoder left valid, mutated 1-3 times (bit flips, truncation, appended "
@@ -109,6 +109,15 @@ PROPS = {
         "message, framing cut inside an envelope, wrong method, wrong content type, bidi over HTTP/1.1), or random; body delivery segmented by the "
         "tape; checked: ServeHTTP returns (fake-clock hang detection), no panic escapes, response strictly decodable by the reference codec for the "
         "protocol the Content-Type selects (or bare 405/415/505), user code entered at most once and only with a decodable prefix of the request, "
-        "documented codes; distinct = distinct scheduler-log hash among runs with >= 2 candidates",
-        16000, 2000000),
+        "documented codes; distinct = distinct requests (method, headers, body, kind)",
+        100000, 2000000),
+    "C05": e2e(
+        "each run = one exchange in one of three refinement worlds against the independent reference codec (package ref, shares no code with "
+        "connect-go): (0) real client <-> real handler with generated programs (headers, trailers, k messages, nil or error with details and "
+        "metadata), both directions recorded and strictly decoded by ref; (1) real client <-> reference server that strictly decodes the request "
+        "and answers in a randomly chosen legal form (padded/unpadded -bin, upper/lower-case percent escapes, lower-case in-body keys, trailers-only "
+        "or headers+trailers, per-message compression, details-bin present or omitted); (2) reference client (bare content types, padded -bin "
+        "metadata, per-message compression with any supported algorithm, grammatical timeouts) -> real handler; oracle: strict decode succeeds and "
+        "equals the supplied values; distinct = distinct scheduler-log hash among runs with >= 2 candidates",
+        16000, 200000),
 }
